@@ -6,6 +6,7 @@ import (
 	"runtime"
 	"sort"
 	"sync"
+	"sync/atomic"
 	"time"
 
 	"verif/cluster"
@@ -139,7 +140,7 @@ func fullRestart(c *lib.Ctx, force int) {
 		// progress, maybe a checkpoint, more progress, crash at a seeded logical point
 		pos = min(o.perSplit, pos+3+r.Intn(o.perSplit/2))
 		x.src.SetLimit(pos)
-		mode := r.Intn(6)
+		mode := r.Intn(7)
 		if force >= 0 && r.Intn(4) > 0 {
 			mode = force
 		}
@@ -150,7 +151,7 @@ func fullRestart(c *lib.Ctx, force int) {
 			release := make(chan struct{})
 			held := make(chan struct{})
 			var once sync.Once
-			x.cl.Loc.HoldWrite = func(path string) {
+			x.cl.Loc.SetHoldWrite(func(path string) {
 				if filepath.Ext(path) == ".snapshot" {
 					first := false
 					once.Do(func() { first = true })
@@ -159,7 +160,7 @@ func fullRestart(c *lib.Ctx, force int) {
 						<-release
 					}
 				}
-			}
+			})
 			for dl := time.Now().Add(5 * time.Second); time.Now().Before(dl); {
 				x.cl.TickCheckpoint()
 				select {
@@ -178,7 +179,60 @@ func fullRestart(c *lib.Ctx, force int) {
 				close(release)
 				x.logf("crash point: idle (no checkpoint could be started)")
 			}
-			x.cl.Loc.HoldWrite = nil
+			x.cl.Loc.SetHoldWrite(nil)
+		case 6: // a memtable flush of some operator straddles a checkpoint; the next checkpoint follows at once; crash
+			var armed atomic.Bool
+			arrived, release := make(chan struct{}), make(chan struct{})
+			armed.Store(true)
+			cluster.SetHook(func(name string, arg any) {
+				if name == "dkv.flush.before-swap" && armed.CompareAndSwap(true, false) {
+					close(arrived)
+					<-release
+				}
+			})
+			parked := false
+			for step := 0; step < 60 && !parked; step++ {
+				pos = min(o.perSplit, pos+1)
+				x.src.SetLimit(pos)
+				select {
+				case <-arrived:
+					parked = true
+				case <-time.After(time.Millisecond):
+				}
+			}
+			if !parked && !armed.CompareAndSwap(true, false) {
+				<-arrived // it parked this very moment
+				parked = true
+			}
+			if parked {
+				// the flush has written its table but not swapped it in: its memtable is sealed, the WAL was cut. More
+				// records are applied, checkpoint N is taken (the WAL is rotated with the sealed segment and the active
+				// buffer carried over), then the flush finishes and truncates the WAL, and N+1 follows with nothing written
+				// in between: what was applied between the rotation and N exists only in memtables and in the WAL.
+				// (only little can be applied meanwhile: the parked task blocks the flush queue, the next rotation of
+				// that operator's memtable waits for it, and its event loop with it)
+				pos = min(o.perSplit, pos+1)
+				x.src.SetLimit(pos)
+				for dl := time.Now().Add(100 * time.Millisecond); time.Now().Before(dl) && !x.src.CaughtUp(func(rd *cluster.VReader) bool { return x.cl.ReaderLive(rd) }); {
+					time.Sleep(200 * time.Microsecond)
+				}
+				straddled := x.checkpoint(2*time.Second) != nil
+				close(release)
+				lib.DKVIdle(cluster.Watchdog)
+				x.waitCaughtUp()
+				x.checkpoint(10 * time.Second)
+				if straddled {
+					x.logf("crash point: idle after two checkpoints with a memtable flush straddling the first")
+					c.Feat("crashes_after_a_flush_straddling_a_checkpoint", 1)
+				} else {
+					x.logf("crash point: idle after a checkpoint (the parked flush held the operator's event loop; released first)")
+				}
+			} else {
+				close(release)
+				x.checkpoint(10 * time.Second)
+				x.logf("crash point: idle after published checkpoint (no memtable flush happened)")
+			}
+			cluster.SetHook(nil)
 		case 0: // crash with an idle pipeline right after a published checkpoint
 			x.waitCaughtUp()
 			x.checkpoint(10 * time.Second)
